@@ -62,7 +62,7 @@ fn main() {
             let lo: Bound<&Vec<u8>> = match lk { 0 => Bound::Unbounded, 1 => Bound::Included(a), _ => Bound::Excluded(a) };
             let hi: Bound<&Vec<u8>> = match uk { 0 => Bound::Unbounded, 1 => Bound::Included(b), _ => Bound::Excluded(b) };
             let expected: Vec<(Vec<u8>, u64)> = model.iter().filter(|(k, _)| (match lo { Bound::Unbounded => true, Bound::Included(x) => *k >= x, Bound::Excluded(x) => *k > x }) && (match hi { Bound::Unbounded => true, Bound::Included(x) => *k <= x, Bound::Excluded(x) => *k < x })).map(|(k, v)| (k.clone(), *v)).collect();
-            if *lk != 0 && *uk != 0 && a > b { continue; }
+            if std::env::var("NOINV").is_ok() && *lk != 0 && *uk != 0 && a > b { continue; }
             let mut rb = d.range();
             rb = match lo { Bound::Unbounded => rb, Bound::Included(x) => rb.ge(x), Bound::Excluded(x) => rb.gt(x) };
             rb = match hi { Bound::Unbounded => rb, Bound::Included(x) => rb.le(x), Bound::Excluded(x) => rb.lt(x) };
